@@ -292,6 +292,34 @@ def nmne_gate(fn: ast.FunctionDef) -> Tuple[bool, bool]:
     return cap, dflt
 
 
+OBSERVED_KEYS = {"operating_state", "health_state_actual", "health_state_visible", "health_status", "visible_status", "enabled",
+                 "num_executions", "num_access", "num_file_creations", "num_file_deletions", "scanned_this_step", "current_local_user",
+                 "active_remote_sessions", "speed", "traffic", "nmne", "bandwidth", "current_load"}
+BASE_WRITERS = {"simulator/system/services/service.py", "simulator/system/applications/application.py", "simulator/system/software.py",
+                "simulator/file_system/file_system_item_abc.py", "simulator/file_system/file.py", "simulator/file_system/folder.py",
+                "simulator/file_system/file_system.py", "simulator/network/hardware/base.py",
+                "simulator/network/hardware/nodes/network/router.py"}
+
+
+def observed_key_overrides() -> List[str]:
+    """files (outside the base classes) whose describe_state assigns `state[<observed key>]`"""
+    from harness.lib.core import SRC
+    hits = []
+    for f in sorted((SRC / "simulator").rglob("*.py")):
+        rel = str(f.relative_to(SRC))
+        if rel in BASE_WRITERS:
+            continue
+        tree = ast.parse(f.read_text())
+        for fn in ast.walk(tree):
+            if isinstance(fn, ast.FunctionDef) and fn.name == "describe_state":
+                for node in ast.walk(fn):
+                    if isinstance(node, ast.Assign) and isinstance(node.targets[0], ast.Subscript) and \
+                            isinstance(node.targets[0].slice, ast.Constant) and node.targets[0].slice.value in OBSERVED_KEYS and \
+                            ast.unparse(node.targets[0].value) == "state":
+                        hits.append(rel)
+    return sorted(set(hits))
+
+
 def emit() -> str:
     trees = {}
     cls = {}
@@ -369,5 +397,19 @@ def emit() -> str:
     vt = find_method(class_def(parse(D + "observations.py"), "AbstractObservation"), "_validate_thresholds")
     rejects = [ast.unparse(n.test) for n in ast.walk(vt) if isinstance(n, ast.If) and "thresholds[idx] <=" in ast.unparse(n.test)]
     out.append(f"def thresholdsMustStrictlyAscend : Bool := {'true' if rejects == ['thresholds[idx] <= thresholds[idx - 1]'] else 'false'}")
+    # the FTP override of `operating_state` in describe_state, and an inventory: no other describe_state assigns an observed key
+    ftp = find_method(class_def(parse("simulator/system/services/ftp/ftp_service.py"), "FTPServiceABC"), "describe_state")
+    ov = None
+    for node in ast.walk(ftp):
+        if isinstance(node, ast.If):
+            t = ast.unparse(node.test)
+            b = ast.unparse(node.body[0]) if len(node.body) == 1 else ""
+            if t == "self.operating_state == ServiceOperatingState.RUNNING and (not self._active)" and \
+                    b == "state['operating_state'] = ServiceOperatingState.STOPPED.value":
+                ov = ("RUNNING", "STOPPED")
+    if ov is None:
+        raise ValueError("FTPServiceABC.describe_state override not recognised")
+    out.append(f'def ftpIdleOverride : String × String := ("{ov[0]}", "{ov[1]}")')
+    out.append("def observedKeysOverriddenIn : List String := [" + ", ".join(f'"{x}"' for x in observed_key_overrides()) + "]")
     out.append("end Primaite.Gen.ObsTables\n")
     return "\n".join(out)
